@@ -15,6 +15,12 @@ use ndarray::{Array1, Array2};
 const TOL_CURVE: f64 = 2e-6;
 const TOL_AUC: f64 = 1e-5;
 
+/// Relative tolerance of the f32 log-loss against the f64 reference: 1e-5, and for long inputs the
+/// bound n * 2^-24 of a sequential f32 sum of n non-negative terms (only exceeds 1e-5 from n = 168).
+fn ll_rel(n: usize) -> f64 {
+    (1e-5f64).max(n as f64 * 6e-8)
+}
+
 fn ref_log_loss(scores: &[f32], truth: &[bool]) -> f64 {
     let lo = f32::EPSILON as f64;
     let hi = (1.0f32 - f32::EPSILON) as f64;
@@ -46,7 +52,7 @@ pub fn run_scores(case: &Case, viols: &mut Sink) -> Cnt {
 
     // ---------------- log-loss (defined for every truth vector) ----------------
     let exp_ll = ref_log_loss(scores, truth);
-    let ll_tol = |o: f64, e: f64| closef(o, e, 1e-5, 1e-6, 1.0);
+    let ll_tol = |o: f64, e: f64| closef(o, e, ll_rel(n), 1e-6, 1.0);
     cnt.bump("scores.values_compared", 1);
     let base_ll = match guarded(|| arr.log_loss(&truth[..])) {
         Ok(Ok(v)) => {
@@ -194,12 +200,109 @@ pub fn run_scores(case: &Case, viols: &mut Sink) -> Cnt {
         let r2 = guarded(|| a2.roc(&t2[..])).ok().and_then(|r| r.ok());
         let l2 = guarded(|| a2.log_loss(&t2[..])).ok().and_then(|r| r.ok());
         let ll_same = match (base_ll, l2) {
-            (Some(a), Some(b)) => closef(a as f64, b as f64, 1e-5, 1e-6, 1.0),
+            (Some(a), Some(b)) => closef(a as f64, b as f64, 2.0 * ll_rel(n), 1e-6, 1.0),
             _ => false,
         };
         if r2.as_ref() != Some(&roc) || !ll_same {
             report!(viols, "roc.not_permutation_invariant", case, json!({"metric": "permutation", "perm": p}), "permutation {:?} of scores and truth: roc {:?} log_loss {:?} vs {:?} {:?}", p, r2, l2, roc, base_ll);
             break;
+        }
+    }
+    cnt
+}
+
+// ---------------------------------------------------------------------------------------------
+// memory layouts
+// ---------------------------------------------------------------------------------------------
+use crate::layout::{hold1, L1_ALL};
+
+fn is_unwrap_none(msg: &str) -> bool {
+    msg.contains("on a `None` value")
+}
+
+pub fn lay_scores(outer: &Case, scores: &[f32], truth: &[bool], viols: &mut Sink) -> Cnt {
+    let mut cnt = Cnt::default();
+    let n = scores.len();
+    let prs: Vec<Pr> = scores.iter().map(|&s| Pr::new(s)).collect();
+    let arr: Array1<Pr> = Array1::from(prs.clone());
+    let both = truth.iter().any(|&t| t) && truth.iter().any(|&t| !t);
+    let base_roc = if both { guarded(|| arr.roc(truth)).ok().and_then(|r| r.ok()) } else { None };
+    let base_ll = guarded(|| arr.log_loss(truth)).ok().and_then(|r| r.ok());
+    cnt.evals += 1;
+    cnt.nontrivial += 1;
+    cnt.bump("layouts.scores_cases", 1);
+    let ppois = |_: usize| Pr::new(0.8125);
+    for (name, l) in L1_ALL.iter().skip(1) {
+        let hp = hold1(&prs, &ppois, *l);
+        let pv = hp.view();
+        let tpois = |i: usize| !truth[i.min(n - 1)];
+        let ht = hold1(truth, &tpois, *l);
+        let tv = ht.view();
+        cnt.bump("layouts.scores_layout_runs", 1);
+        // log-loss on a strided probability view
+        cnt.bump("layouts.values_compared", 1);
+        match guarded(|| pv.log_loss(truth)) {
+            Ok(Ok(v)) => {
+                let ok = base_ll.map_or(false, |b| b.to_bits() == v.to_bits() || closef(v as f64, b as f64, ll_rel(n), 1e-6, 1.0));
+                if !ok {
+                    report!(viols, "log_loss.layout_dependence", outer, json!({"metric": "log_loss", "layout": name}), "log_loss on the scores as {} = {}, on the standard array {:?}", name, v, base_ll);
+                }
+            }
+            other => {
+                report!(viols, "log_loss.layout_dependence", outer, json!({"metric": "log_loss", "layout": name}), "log_loss on the scores as {}: {:?}, on the standard array {:?}", name, other.map(|r| r.map_err(|e| e.to_string())), base_ll);
+            }
+        }
+        if !both {
+            continue;
+        }
+        // roc on a strided probability view, and on datasets whose targets are strided views
+        let rec: Array2<f64> = Array2::zeros((n, 1));
+        let dp = DatasetBase::new(rec.clone(), pv);
+        let dt = DatasetBase::new(rec, tv);
+        let runs: Vec<(&str, Result<linfa::error::Result<linfa::metrics::ReceiverOperatingCharacteristic>, String>)> =
+            vec![("view.roc(&[bool])", guarded(|| pv.roc(truth))), ("dataset(view targets).roc(&dataset(view targets))", guarded(|| dp.roc(&dt)))];
+        for (form, r) in runs {
+            cnt.bump("layouts.values_compared", 1);
+            match r {
+                Ok(Ok(r)) => {
+                    if Some(&r) != base_roc.as_ref() {
+                        report!(viols, "roc.layout_dependence", outer, json!({"metric": "roc", "layout": name, "form": form}), "{} with the scores as {} = {:?}, on the standard array {:?}", form, name, r, base_roc);
+                    }
+                }
+                Ok(Err(e)) => {
+                    report!(viols, "roc.layout_dependence", outer, json!({"metric": "roc", "layout": name, "form": form}), "{} with the scores as {} returned Err({})", form, name, e);
+                }
+                Err(p) => {
+                    let sig = if is_unwrap_none(&p) { "roc.non_contiguous_view_panics" } else { "roc.layout_dependence" };
+                    report!(
+                        viols,
+                        sig,
+                        outer,
+                        json!({"metric": "roc", "layout": name, "form": form}),
+                        "{} with the scores as {} (a valid non-contiguous ndarray view with the same elements) panicked: {}; the standard array gives {:?}",
+                        form,
+                        name,
+                        p,
+                        base_roc
+                    );
+                }
+            }
+        }
+        cnt.bump("layouts.values_compared", 1);
+        match guarded(|| dp.log_loss(&dt)) {
+            Ok(Ok(v)) => {
+                let ok = base_ll.map_or(false, |b| b.to_bits() == v.to_bits() || closef(v as f64, b as f64, ll_rel(n), 1e-6, 1.0));
+                if !ok {
+                    report!(viols, "log_loss.layout_dependence", outer, json!({"metric": "log_loss", "layout": name, "form": "dataset"}), "dataset log_loss with targets as {} = {}, standard {:?}", name, v, base_ll);
+                }
+            }
+            Ok(Err(e)) => {
+                report!(viols, "log_loss.layout_dependence", outer, json!({"metric": "log_loss", "layout": name, "form": "dataset"}), "dataset log_loss with targets as {} returned Err({})", name, e);
+            }
+            Err(p) => {
+                let sig = if is_unwrap_none(&p) { "log_loss.non_contiguous_view_panics" } else { "log_loss.layout_dependence" };
+                report!(viols, sig, outer, json!({"metric": "log_loss", "layout": name, "form": "dataset"}), "dataset.log_loss(&dataset) with the boolean targets as {} panicked: {}; standard {:?}", name, p, base_ll);
+            }
         }
     }
     cnt
